@@ -39,6 +39,19 @@ Section CoreRun.
     rewrite K1, K3, K4, (eval_frozen c s0 l). auto.
   Qed.
 
+  (** ... nor the line monitor *)
+  Lemma core_m_pln cs e s l : pln mx (fst (core_m q blanks AND cs e s l)) = pln mx s.
+  Proof.
+    unfold core_m. cbv zeta.
+    assert (He: pln mx (ensure cs s) = pln mx s) by (unfold ensure; destruct (frozen mx s); reflexivity).
+    destruct (oeqb e (pln mx (ensure cs s)) && is_nil l); [exact He|]. unfold matches.
+    pose proof (adj_inv cst comp (stopped mx) (fun _ => false) (fun s0 => s0) (fun c s0 => eval q blanks AND c s0 l) (fun s0 => s0)
+                  (fun s0 => pln mx s0 = pln mx s) (fun _ h => h) (fun _ h => h) false AND cs (ensure cs s) (negb AND)) as K.
+    destruct (adj cst comp (stopped mx) (fun _ => false) (fun s0 => s0) (fun c s0 => eval q blanks AND c s0 l) (fun s0 => s0) false AND cs (ensure cs s) (negb AND)) as [[s2 b] ev].
+    cbn [fst] in *. apply K; [|exact He].
+    intros c _ s0 H. destruct (eval_keeps q blanks AND c s0 l) as (_ & _ & _ & _ & K5). rewrite K5. exact H.
+  Qed.
+
   Lemma core_m_quiet cs e : quiet ustring mx (core_m q blanks AND cs e).
   Proof. intros s l. destruct (core_m_flags cs e s l) as (H1 & H2 & H3 & _). auto. Qed.
 
